@@ -170,7 +170,7 @@ def _enumerate(ctx: core.Ctx, shard: int, nshards: int, maxlen: int, stride: int
 
 @st.composite
 def longer(draw):
-    r = draw(st.randoms(use_true_random=False))
+    r = core.rng(draw)
     vs = variants()
     texts = [p for p in vs if p["t"] == "text"]
     marks = [p for p in vs if p["t"] != "text"]
